@@ -708,6 +708,7 @@ def presentation_edit_battery(run):
 def c16_extra(ctx):
     run = ctx.run
     presentation_edit_battery(run)
+    long_listing_parser_probe(run)   # incl. the listing shifted by blank lines: batch / chunk borders must not matter
     from checks import c18
     from vlib import ch
 
